@@ -38,7 +38,7 @@ RULE = (
     "provisioning and created afterwards in the installation, in every data path candidate and around them (incl. symlinks to the outside); "
     "preserve flag. ~8% of cases have no config base at all (documented error); ~6% of the cars write their base list with a blank next to the "
     "comma and ~12% of the cases make the effective data path a symbolic link (both are known findings: counted in excluded_known and skipped "
-    "where they would fire); a tenth of the cases select only cars without a [variables] section while car parameters are given. Non-trivial = at least two selected cars define the same "
+    "where they would fire); data paths also beside the installation sharing its name as a string prefix or written through it (<home>/../x); a tenth of the cases select only cars without a [variables] section while car parameters are given. Non-trivial = at least two selected cars define the same "
     "variable name (in the car or its config bases) AND at least two applied config bases provide the same plain-text file. Distinct = "
     "distinct canonical JSON."
 )
